@@ -86,14 +86,14 @@ CHECKS.update({
 
 CHECKS.update({
  'C09': dict(
-   text=('Theorem about the literal model of ParseLoadFile (model/Load.v): for EVERY layout style of the canonical load-file text (letter case chosen per character, blanks or tabs, LF or CR-LF, comment / blank / ;name lines '
-         'between lines, a missing final newline, fields printed unsigned or signed), every core size 1..2^63, both dialects, every instruction form with fields below the core size and every entry point, the reader returns '
-         'exactly the instructions and entry point (C09_round_trip_partial); and what the reader accepts re-prints and re-reads to itself. The assembler half is a theorem for the canonical layout itself '
-         '(C09_assembler_reads_canonical_partial: compile_warrior on canon_print - one explicit instruction per line, single blanks, LF, ORG first / END last, fields signed or unsigned - returns the warrior; end to end through the models of lexer, symbol scanner, parser and compiler, every warrior, both dialects, core sizes up to 2^31). '
-         'PARTIAL: the assembler half under every layout style (comments, blank lines, CR-LF, tabs, letter case, missing final newline) is not proved (C09_full_statement); it is decided on every run by the correspondence: '
-         'gmars\' ParseLoadFile and CompileWarrior on extracted renderings (styled and canonical) of generated warriors, against the warrior and against the extracted models.'),
-   design_ref='DESIGN.md 0.2 and 5 C09', note=NOTE_STD + ' The assembler half of the round trip under layout variations is covered by differential testing only.',
-   technique='Coq round-trip proof for the load-file reader over all layout styles (chunk normal form of a line, induction over lines); Coq end-to-end proof for the assembler on the canonical layout (lexeme decomposition, symbolic execution of the parser state machine line by line, compile step) + per-run two-stage correspondence for reader and assembler'),
+   text=('Theorem C09_round_trip (the property at full strength on the models): for EVERY layout style of the canonical load-file text (letter case chosen per character, blanks or tabs, LF or CR-LF, comment / blank / ;name lines '
+         'between lines, trailing remarks - also with inner semicolons -, a missing final newline, fields printed unsigned or signed), both dialects, every instruction form with fields below the core size and every entry point, '
+         'BOTH readers return exactly the instructions and the entry point: the load-file reader (model/Load.v; core sizes up to 2^63) and the assembler (compile_warrior: an END-TO-END theorem through the models of lexer, symbol scanner, parser and compiler; '
+         'core sizes up to 2^31, the range of the 32-bit operand evaluator; configurations the assembler accepts whose maximum length admits the warrior). The assembler half is proved for every layout RECORD satisfying layout_ok '
+         '(C09_assembler_any_layout: arbitrary blank runs, any respelling in another letter case, optional carriage returns, blank and comment lines, remarks, optional final line end), of which the layouts loadprint derives from its style number are instances; '
+         'what the reader accepts re-prints and re-reads to itself (C09_reader_fixpoint). Every run feeds gmars\' ParseLoadFile and CompileWarrior with extracted renderings (styled and plain canonical) of generated warriors and compares with the warrior and with the extracted models.'),
+   design_ref='DESIGN.md 0.2 and 5 C09', note=NOTE_STD,
+   technique='Coq round-trip proofs for both readers over all layout styles: load-file reader by a chunk normal form of a line; assembler end to end (text as blank runs and lexemes; symbolic execution of the parser state machine over token-level documents; compile step for any letter case) + per-run two-stage correspondence for reader and assembler'),
 })
 
 CHECKS.update({
